@@ -63,6 +63,7 @@ func C12(run *mon.Run) {
 			go func(l int, a algT) {
 				defer wg.Done()
 				defer func() { <-sem }()
+				defer run.Protect("c12 worker")
 				rr := run.Rand(fmt.Sprintf("len-%d-%d", l, a.alg))
 				seeds := [][]byte{make([]byte, l), bytes.Repeat([]byte{0xff}, l), seqBytes(l)}
 				if l == 0 {
